@@ -219,6 +219,76 @@ Proof.
   split; intros Hin; apply existsb_fpath in Hin; congruence.
 Qed.
 
+(* lists of outputs *)
+Theorem setup_list_refuses_iff : forall inputs reqs,
+    setup_paths_list inputs reqs = None
+    <-> exists p, In p (unlink_set reqs) /\ In p inputs.
+Proof.
+  intros inputs reqs. unfold setup_paths_list.
+  destruct (existsb (fun p => existsb (fpath_eqb p) inputs) (unlink_set reqs))
+    eqn:E.
+  - apply existsb_exists in E as (p & Hp & Hi). apply existsb_fpath in Hi.
+    split; auto. intros _. exists p; auto.
+  - split; [discriminate|]. intros (p & Hp & Hi). exfalso.
+    assert (existsb (fun p => existsb (fpath_eqb p) inputs) (unlink_set reqs)
+            = true).
+    { apply existsb_exists. exists p. split; auto. apply existsb_fpath; auto. }
+    congruence.
+Qed.
+
+(* when setup runs, nothing it may unlink - no output and no temporary path
+   of ANY of the requested outputs - is an input; and the single-output
+   function is the special case *)
+Theorem setup_list_unlinks_no_input : forall inputs reqs ots,
+    setup_paths_list inputs reqs = Some ots ->
+    ots = map out_tmp reqs
+    /\ forall p, In p (unlink_set reqs) -> ~ In p inputs.
+Proof.
+  intros inputs reqs ots H. unfold setup_paths_list in H.
+  destruct (existsb (fun p => existsb (fpath_eqb p) inputs) (unlink_set reqs))
+    eqn:E; try discriminate.
+  inversion H; subst ots. split; auto. intros p Hp Hi.
+  assert (existsb (fun p => existsb (fpath_eqb p) inputs) (unlink_set reqs)
+          = true).
+  { apply existsb_exists. exists p. split; auto. apply existsb_fpath; auto. }
+  congruence.
+Qed.
+
+Theorem setup_list_single : forall inputs d name,
+    setup_paths_list inputs [(d, name)]
+    = match setup_paths_at inputs d name with
+      | None => None
+      | Some ot => Some [ot]
+      end.
+Proof.
+  intros inputs d name. unfold setup_paths_list, setup_paths_at, unlink_set,
+    out_tmp. simpl. rewrite !orb_false_r.
+  destruct (existsb (fpath_eqb (d, normalize_out name)) inputs
+            || existsb (fpath_eqb (d, temp_of (normalize_out name))) inputs);
+    reflexivity.
+Qed.
+
+(* the outputs and temporary paths of several requests never collide with
+   each other except as the same request: an output is never another
+   request's temporary path *)
+Theorem out_never_a_temp : forall r1 r2 : fpath,
+    snd r1 <> [] -> snd r2 <> [] ->
+    fst (out_tmp r1) <> snd (out_tmp r2).
+Proof.
+  intros [d1 n1] [d2 n2] H1 H2 E. unfold out_tmp in E. simpl in *.
+  inversion E. destruct (temp_names_distinct n2 n1 H2 H1) as (_ & Hd).
+  apply Hd. congruence.
+Qed.
+
+Example ex_setup_list :
+  setup_paths_list [(1, [105; 110] ++ s_rtdc)]
+                   [(1, [111]); (1, [105; 110])] = None
+  /\ setup_paths_list [(1, [105; 110] ++ s_rtdc)]
+                      [(1, [111]); (2, [105; 110])]
+     = Some [((1, [111] ++ s_rtdc), (1, [111] ++ s_rtdc_tilde));
+             ((2, [105; 110] ++ s_rtdc), (2, [105; 110] ++ s_rtdc_tilde))].
+Proof. vm_compute. auto. Qed.
+
 (* with the suffix check in force (.rtdc/.tdms inputs) the temporary path can
    never be an input: the task refuses exactly when the output is an input *)
 Theorem setup_refuses_allowed : forall inputs d name,
